@@ -1220,3 +1220,205 @@ Section Permute.
     assert ((k + 1) * tvolume sx <= tbatch sx * tvolume sx) by (apply Nat.mul_le_mono_r; lia). lia.
   Qed.
 End Permute.
+
+Lemma nth_set_other {A} : forall (l : list A) d v q dflt, d < length l -> q <> d ->
+  nth q (firstn d l ++ v :: skipn (S d) l) dflt = nth q l dflt.
+Proof.
+  induction l as [|x l IH]; intros d v q dflt Hd Hq; cbn [length] in Hd; [lia|].
+  destruct d as [|d]; destruct q as [|q]; cbn [firstn skipn app nth]; try reflexivity; try lia.
+  apply IH; lia.
+Qed.
+
+(* ================================================================== C01: adjoint corollaries *)
+Section KernelAdjoints.
+  Variable T : Type.
+  Variables (zero : T) (add mul : T -> T -> T).
+  Hypothesis add_comm : forall a b, add a b = add b a.
+  Hypothesis add_assoc : forall a b c, add a (add b c) = add (add a b) c.
+  Hypothesis add_0_l : forall a, add zero a = a.
+  Hypothesis mul_add_distr_r : forall a b c, mul (add a b) c = add (mul a c) (mul b c).
+  Hypothesis mul_0_r : forall a, mul a zero = zero.
+
+  Notation dotT := (dot T zero add mul).
+  Notation pairing := (fw_pairing T zero add mul).
+
+  (* ---- <gy, F dx> really is the dot product with the forward kernel's output ---- *)
+  Definition cell_val (o : option T) : T := match o with Some v => v | None => zero end.
+  (* the output buffer after running the forward program on operand dx (unwritten cells read 0) *)
+  Definition fw_out (p : mov) (dx : list T) (n : nat) : list T :=
+    map cell_val (assign T zero p [dx] (repeat None n)).
+
+  Lemma dot_set : forall (gy l : list T) d v, d < length l -> length gy = length l ->
+    nth d l zero = zero -> dotT gy (upd T l d v) = add (dotT gy l) (mul (nth d gy zero) v).
+  Proof.
+    unfold upd. induction gy as [|g gy IH]; intros l d v Hd Hl Hz; destruct l as [|x l]; cbn [length] in *; try lia.
+    destruct d as [|d]; cbn [firstn skipn app nth dot] in *.
+    - rewrite Hz, mul_0_r, add_0_l. apply add_comm.
+    - rewrite IH by (assumption || lia). apply add_assoc.
+  Qed.
+
+  Lemma dot_zeros : forall (gy : list T) n, dotT gy (repeat zero n) = zero.
+  Proof.
+    induction gy as [|g gy IH]; intro n; destruct n; cbn [repeat dot]; try reflexivity.
+    rewrite IH, mul_0_r. apply add_0_l.
+  Qed.
+
+  Lemma map_cell_repeat n : map cell_val (repeat None n) = repeat zero n.
+  Proof. induction n as [|m IHm]; cbn [repeat map cell_val]; [reflexivity|]. f_equal. exact IHm. Qed.
+
+  Lemma assign_pairing gy dx n : forall p y, length y = n -> length gy = n ->
+    NoDup (map fst p) ->
+    (forall e, In e p -> fst e < n /\ nth (fst e) y None = None /\ fst (snd e) = 0) ->
+    dotT gy (map cell_val (assign T zero p [dx] y)) = add (dotT gy (map cell_val y)) (pairing p gy dx).
+  Proof.
+    induction p as [|[d [k s]] r IH]; intros y Hy Hg ND Hp; cbn [assign fw_pairing].
+    - rewrite add_comm, add_0_l. reflexivity.
+    - destruct (Hp (d, (k, s)) ltac:(left; reflexivity)) as [Hd [Hnone Hk]]. cbn [fst snd] in Hd, Hnone, Hk. subst k.
+      cbn [map fst] in ND. inversion ND as [|? ? Hnotin ND']; subst.
+      set (y' := firstn d y ++ Some (nth s (nth 0 [dx] []) zero) :: skipn (S d) y).
+      assert (Hy' : length y' = length y).
+      { unfold y'. rewrite app_length, firstn_length. cbn [length]. rewrite skipn_length. lia. }
+      assert (Hmap : map cell_val y' = upd T (map cell_val y) d (nth s dx zero)).
+      { unfold y', upd. rewrite map_app, firstn_map. cbn [map cell_val nth]. rewrite skipn_map. reflexivity. }
+      rewrite IH.
+      + rewrite Hmap, dot_set.
+        * rewrite <- add_assoc. reflexivity.
+        * rewrite map_length. lia.
+        * rewrite map_length. lia.
+        * rewrite (nth_indep _ zero (cell_val None)) by (rewrite map_length; lia).
+          rewrite map_nth, Hnone. reflexivity.
+      + lia.
+      + exact Hg.
+      + exact ND'.
+      + intros e He. destruct (Hp e ltac:(right; exact He)) as [He1 [He2 He3]].
+        split; [exact He1|]. split; [|exact He3].
+        assert (Hne : fst e <> d) by (intro E; apply Hnotin; rewrite <- E; apply in_map; exact He).
+        unfold y'. rewrite nth_set_other by lia. exact He2.
+  Qed.
+
+  Theorem fw_pairing_dot p gy dx n :
+    covers p n -> length gy = n -> (forall e, In e p -> fst (snd e) = 0) ->
+    pairing p gy dx = dotT gy (fw_out p dx n).
+  Proof.
+    intros Hc Hg Hk. unfold fw_out. rewrite (assign_pairing gy dx n).
+    - rewrite map_cell_repeat, dot_zeros, add_0_l. reflexivity.
+    - apply repeat_length.
+    - exact Hg.
+    - apply (Permutation_NoDup (Permutation_sym Hc)). apply seq_NoDup.
+    - intros e He. split; [|split; [|apply Hk; exact He]].
+      + assert (Hin : In (fst e) (seq 0 n)) by (apply (Permutation_in _ Hc); apply in_map; exact He).
+        apply in_seq in Hin. lia.
+      + apply nth_repeat.
+  Qed.
+
+  (* the adjoint identity in its usual form, for a backward program that rearranges the
+     transposed forward program: <bw(gy) on top of gx, dx> = <gx, dx> + <gy, fw(dx)> *)
+  Theorem kernel_adjoint (q : acc) (fw : mov) n gy gx dx :
+    Permutation q (mov_transposed fw) -> covers fw n -> (forall e, In e fw -> fst (snd e) = 0) ->
+    acc_in_bounds q (length gx) (length gy) -> length dx = length gx -> length gy = n ->
+    dotT (scatter T zero add q gy gx) dx = add (dotT gx dx) (dotT gy (fw_out fw dx n)).
+  Proof.
+    intros Hp Hc Hk Hb Hl Hg.
+    rewrite (transposed_adjoint T zero add mul add_comm add_assoc add_0_l mul_add_distr_r q fw gy gx dx Hp Hb Hl).
+    rewrite (fw_pairing_dot fw gy dx n Hc Hg Hk). reflexivity.
+  Qed.
+End KernelAdjoints.
+
+Lemma acc_as_mov_covers p n : covers p n -> covers (acc_as_mov p) n.
+Proof. unfold covers, acc_as_mov. rewrite map_map. cbn [fst]. intro H. exact H. Qed.
+
+Lemma acc_as_mov_operand p e : In e (acc_as_mov p) -> fst (snd e) = 0.
+Proof. unfold acc_as_mov. intro H. apply in_map_iff in H. destruct H as [x [<- _]]. reflexivity. Qed.
+
+Section KernelAdjointInstances.
+  Variable T : Type.
+  Variables (zero : T) (add mul : T -> T -> T).
+  Hypothesis add_comm : forall a b, add a b = add b a.
+  Hypothesis add_assoc : forall a b c, add a (add b c) = add (add a b) c.
+  Hypothesis add_0_l : forall a, add zero a = a.
+  Hypothesis mul_add_distr_r : forall a b c, mul (add a b) c = add (mul a c) (mul b c).
+  Hypothesis mul_0_r : forall a, mul a zero = zero.
+
+  Notation dotT := (dot T zero add mul).
+  Notation adjoint_of := (kernel_adjoint T zero add mul add_comm add_assoc add_0_l mul_add_distr_r mul_0_r).
+
+  (* flip_bw is the adjoint of flip_fw (and accumulates) *)
+  Theorem flip_adjoint s dim skip n R gy gx dx :
+    tlower s dim = skip -> tget s dim = n -> tsize s = skip * n * R -> 0 < skip -> 0 < n ->
+    length gx = tsize s -> length gy = tsize s -> length dx = tsize s ->
+    dotT (scatter T zero add (flip_pairs s dim) gy gx) dx
+    = add (dotT gx dx) (dotT gy (fw_out T zero (acc_as_mov (flip_pairs s dim)) dx (tsize s))).
+  Proof.
+    intros H1 H2 H3 H4 H5 Lx Ly Ld. apply adjoint_of.
+    - exact (flip_bw_transposed s dim skip n R H1 H2 H3 H4 H5).
+    - apply acc_as_mov_covers. exact (flip_pairs_covers s dim skip n R H1 H2 H3 H4 H5).
+    - apply acc_as_mov_operand.
+    - rewrite Lx, Ly. exact (flip_pairs_in_bounds s dim skip n R H1 H2 H3 H4 H5).
+    - congruence.
+    - exact Ly.
+  Qed.
+
+  (* transpose_bw = inplace_add(transpose_fw(gy), gx) is the adjoint of transpose_fw *)
+  Theorem transpose_adjoint sx sy d1 d2 bs gy gx dx :
+    tget sx 0 = d1 -> tget sx 1 = d2 -> tbatch sy = bs ->
+    tsize sx = d1 * d2 * bs -> tsize sy = d2 * d1 * bs ->
+    tget sy 0 = d2 -> tget sy 1 = d1 -> tbatch sx = bs ->
+    length gx = tsize sx -> length gy = tsize sy -> length dx = tsize sx ->
+    dotT (scatter T zero add (mov_as_acc (transpose_fw sy sx)) gy gx) dx
+    = add (dotT gx dx) (dotT gy (fw_out T zero (transpose_fw sx sy) dx (tsize sy))).
+  Proof.
+    intros H1 H2 H3 H4 H5 H6 H7 H8 Lx Ly Ld. apply adjoint_of.
+    - exact (transpose_bw_transposed sx sy d1 d2 bs H1 H2 H3 H4 H5 H6 H7 H8).
+    - exact (transpose_fw_covers sx sy d1 d2 bs H1 H2 H3 H4 H5).
+    - intros [d [k s]] Hin. apply (transpose_fw_spec sx sy d1 d2 bs H1 H2 H3) in Hin.
+      destruct Hin as [i [j [b [_ [_ [_ [-> _]]]]]]]. reflexivity.
+    - rewrite Lx, Ly. unfold acc_in_bounds, mov_as_acc. apply Forall_forall. intros [a c] Hin.
+      apply in_map_iff in Hin. destruct Hin as [[d [k s]] [E Hin]]. cbn [fst snd] in E. injection E as -> ->.
+      apply (transpose_fw_spec sy sx d2 d1 bs H6 H7 H8) in Hin.
+      destruct Hin as [i [j [b [Hi [Hj [Hb [_ [-> ->]]]]]]]]. cbn [fst snd]. rewrite H4, H5.
+      split; apply flat_lt; assumption.
+    - congruence.
+    - exact Ly.
+  Qed.
+
+  (* permute_dims_bw is the adjoint of permute_dims_fw *)
+  Theorem permute_adjoint sx sy perm nd gy gx dx :
+    length perm = nd -> Permutation perm (seq 0 nd) -> twf sx ->
+    tdepth sx <= nd -> tdepth sy <= nd ->
+    (forall b, b < nd -> tget sy b = tget sx (nth b perm 0)) -> twf sy -> tbatch sy = tbatch sx ->
+    length gx = tsize sx -> length gy = tsize sy -> length dx = tsize sx ->
+    dotT (scatter T zero add (permute_bw sx sy perm) gy gx) dx
+    = add (dotT gx dx) (dotT gy (fw_out T zero (permute_fw sx sy perm) dx (tsize sy))).
+  Proof.
+    intros H1 H2 H3 H4 H5 H6 H7 H8 Lx Ly Ld. apply adjoint_of.
+    - rewrite permute_bw_transposed. apply Permutation_refl.
+    - exact (permute_fw_covers sx sy perm nd H1 H2 H3 H4 H5 H6 H7 H8).
+    - intros [d [k s]] Hin. unfold permute_fw in Hin. apply in_map_iff in Hin.
+      destruct Hin as [x [E _]]. injection E as _ <- _. reflexivity.
+    - rewrite Lx, Ly. exact (permute_bw_in_bounds sx sy perm nd H1 H2 H3 H4 H5 H6 H7 H8).
+    - congruence.
+    - exact Ly.
+  Qed.
+End KernelAdjointInstances.
+
+(* ================================================================== sum / broadcast duality *)
+(* the data movement that is the transpose of a reduction: every scanned source receives a copy
+   of its group's output *)
+Definition red_transposed (p : red) : mov :=
+  flat_map (fun e => map (fun s => (s, (0, fst e))) (snd e)) p.
+
+Lemma flat_map_map {A B C} (f : B -> list C) (g : A -> B) l :
+  flat_map f (map g l) = flat_map (fun x => f (g x)) l.
+Proof. induction l as [|a l IH]; cbn [map flat_map]; [reflexivity|]. rewrite IH. reflexivity. Qed.
+
+(* broadcast_fw along dim IS the transposed index program of the sum along dim (same list, same
+   order); since the groups partition the input (axis_nest_partition) broadcast writes every
+   element once, and broadcast / sum are each other's adjoints *)
+Theorem broadcast_is_transposed_sum (sx sy : tshape) (dim base n R : nat) :
+  tlower sx dim = base -> tlower sy dim = base -> tget sx dim = n -> tsize sy = base * R ->
+  broadcast_fw sy sx dim n = red_transposed (axis_red sx sy dim).
+Proof.
+  intros Hbx Hby Hn Hsy. unfold broadcast_fw, red_transposed, axis_red, flat_map2.
+  rewrite Hbx, Hby, Hn, Hsy, flat_map_map. cbn [fst snd]. apply flat_map_ext. intro i.
+  rewrite map_map. reflexivity.
+Qed.
